@@ -39,13 +39,16 @@ selector passed with the render (kwargs, read through self.input or the context)
 filesystem(<workdir>/tpl), django_components.template_loader.Loader, optionally wrapped in the cached loader.
 
 spec -> code: TLC (MC_X06) enumerates every chain of the catalogues (depth 1 complete; depth 2: every static kind x
-              few methods, few static kinds x every method table; thorough: more, depth 3) and, for chains whose
+              few methods, few static kinds x every method table [quick: pairwise per method]; thorough: all x all,
+              depth 3, histories of 4) and, for chains whose
               sources go through the template cache, every history of 3 renders/clears for template_cache_size
               0, 1, 2; it checks KaseOK (Decided, OnlyOne, ParentIgnored, EmptySubclassSame), NoLeak and the
               TemplateCache invariants and exports the admitted outcome set of every render.  The harness builds the
-              real classes, renders every (class, selector) - Component.render() or a {% tag %} of a private
-              registry, both context modes - under a template_cache_size / cached-loader configuration and compares
-              the tag printed by the chosen template (and the per-render value v) with the admitted set.
+              real classes, renders every (class, selector) - Component.render(), render_to_response(), or a
+              {% tag %} of a private registry (both context modes; also two components on one page) - under a
+              template_cache_size / cached-loader configuration and compares the tag printed by the chosen template
+              (and the per-render value v: a template that ran with another render's data is a mismatch) with the
+              admitted set.
 code -> spec: seeded random chains beyond the bound (depth <= 4, 4 directories, tables of 4 selectors, any mix of
               definitions, histories of 10-24 renders/clears, cache sizes 0/1/2/3/128) are recorded and validated by
               TLC (Trace_X06) against the same operators, one verdict per trace.
@@ -58,6 +61,10 @@ template = None / methods on mixins / multiple inheritance (C16 covers the attri
 inline templates (no documented base).  An exception of any type counts as the documented refusal (the docs do not
 name the exception class).  A method returning None counts as "not defined" (Optional return type, default
 implementation returns None).
+
+--selftest: 8 in-process mutation probes, and the three proposed repairs (proposed_fixes/X06-*.diff applied to a
+scratch copy of the sources, the touched definitions installed in-process): with them nothing fails and no finding
+key is produced.
 
 Finding keys (shape of the abstract case : outcome the deviation predicts), see KNOWN_FINDINGS.txt:
  F1 same-text-template-files-with-relative-include:include-resolved-against-first-compiled-file
@@ -296,16 +303,8 @@ class Chain:
                 out = cls.render_to_response(kwargs={"v": v, "sel": sel}).content.decode()
             else:
                 mode = "django" if route == "tag-django" else "isolated"
-                key = (c, mode)
-                if key not in self.names:
-                    from django.template import Template
-                    name = f"k{self.uid}_{c}"
-                    _env_state["regs"][mode].register(name, cls)
-                    t = "x06" + mode[0]
-                    self.names[key] = (name, Template(
-                        "{% load x06lib_" + mode + " %}{% " + t + ' "' + name + '" v=v sel=sel / %}'))
                 from django.template import Context
-                out = self.names[key][1].render(Context({"v": v, "sel": sel}))
+                out = self._registered(c, mode)[1].render(Context({"v": v, "sel": sel}))
         except Exception as e:
             ev["exc"] = f"{type(e).__name__}: {e}".replace("\n", " | ")[:240]
             return ev
@@ -313,6 +312,18 @@ class Chain:
         if ev["obs"].startswith("undecodable"):
             ev["exc"] = repr(out)[:200]
         return ev
+
+    def _registered(self, c: int, mode: str) -> Tuple[str, Any]:
+        """Name of class K<c> in the private registry of `mode` and the page that uses it once (nothing rendered)."""
+        key = (c, mode)
+        if key not in self.names:
+            from django.template import Template
+            name = f"k{self.uid}_{c}"
+            _env_state["regs"][mode].register(name, self.classes[c - 1])
+            t = "x06" + mode[0]
+            self.names[key] = (name, Template(
+                "{% load x06lib_" + mode + " %}{% " + t + ' "' + name + '" v=v sel=sel / %}'))
+        return self.names[key]
 
     def render_pair(self, a: Tuple[int, int, int], b: Tuple[int, int, int], route: str) -> Optional[List[Dict[str, Any]]]:
         """One page that uses two components one after the other ((c, sel, v) each): two render events, or None
@@ -322,8 +333,7 @@ class Chain:
         for c in (a[0], b[0]):
             if self.classes[c - 1] is None:
                 return None
-            if (c, mode) not in self.names:      # registers the class and compiles its one-tag page
-                self.render(c, 0, 0, route)
+            self._registered(c, mode)
         t = "x06" + mode[0]
         key = (a[0], b[0], mode)
         if key not in self.pages:
@@ -433,12 +443,18 @@ def families(tier: str, small: bool = False) -> List[Dict[str, Any]]:
         f += [dict(name="d2m", depths="{2}", base="LvMidBase", leaf="LvMidLeaf", plans="PlansBoth", h=0, size=2),
               dict(name="hist1", depths="{2}", base="LvHistBase", leaf="LvHistLeaf", plans="PlansSplit", h=2, size=1)]
         return f
-    f += [dict(name="d2s", depths="{2}", base="LvStatBase", leaf="LvStatLeaf", plans="PlansSplit", h=0, size=2),
-          dict(name="d2d", depths="{2}", base="LvDynBase", leaf="LvDynLeaf", plans="PlansSplit", h=0, size=2),
-          dict(name="d2m", depths="{2}", base="LvMidBase", leaf="LvMidLeaf", plans="PlansBoth", h=0, size=2)]
-    for size in (0, 1, 2):
+    f += [dict(name="d2m", depths="{2}", base="LvMidBase", leaf="LvMidLeaf", plans="PlansBoth", h=0, size=2)]
+    if tier == "quick":
+        f += [dict(name="d2sa", depths="{2}", base="LvStatBase0", leaf="LvStatLeaf", plans="PlansSplit", h=0, size=2),
+              dict(name="d2sb", depths="{2}", base="LvStatBase", leaf="LvStatLeaf0", plans="PlansSplit", h=0, size=2),
+              dict(name="d2g", depths="{2}", base="LvGtnBase", leaf="LvGtnLeaf", plans="PlansSplit", h=0, size=2),
+              dict(name="d2t", depths="{2}", base="LvGtBase", leaf="LvGtLeaf", plans="PlansSplit", h=0, size=2)]
+    else:
+        f += [dict(name="d2s", depths="{2}", base="LvStatBase", leaf="LvStatLeaf", plans="PlansSplit", h=0, size=2),
+              dict(name="d2d", depths="{2}", base="LvDynBase", leaf="LvDynLeaf", plans="PlansSplit", h=0, size=2)]
+    for size in (0, 1, 2):      # size 0 caches nothing: shorter histories in the quick tier
         f.append(dict(name=f"hist{size}", depths="{2}", base="LvHistBase", leaf="LvHistLeaf", plans="PlansSplit",
-                      h=3, size=size))
+                      h=2 if (size == 0 and tier == "quick") else 3, size=size))
     if tier != "quick":
         f += [dict(name="d3", depths="{3}", base="LvMidBase", leaf="LvMidLeaf", plans="Plans3", h=0, size=2)]
         for p in range(1, 5):
@@ -470,7 +486,7 @@ def export_all(chk: Check, tier: str, small: bool = False) -> List[Dict[str, Any
     w = workdir("x06mc")
     fams = families(tier, small)
     items: List[Dict[str, Any]] = []
-    with ThreadPoolExecutor(max_workers=4) as ex:
+    with ThreadPoolExecutor(max_workers=5) as ex:
         for fam, rows, r in ex.map(_export_family, [(f, w) for f in fams]):
             chk.add("states", r.distinct)
             chk.add("transitions", r.generated)
@@ -601,7 +617,7 @@ def replay_exported(chk: Check, items: List[Dict[str, Any]], workers: int = 6) -
                           {"event": b["event"], "admitted": ev["exp"], "observed": ev["obs"], "exc": ev["exc"],
                            "route": ev.get("route"), "events": b["events"]}, key=b["key"])
     chk.add("cases_replayed", len(items))
-    for fam in ("d1", "d2s", "d2d", "hist1"):
+    for fam in ("d1", "d2sa", "d2s", "d2g", "d2d", "hist1"):
         rows = [r for r in items if r["fam"] == fam]
         if rows:
             r = rows[(len(rows) * 2) // 3]
@@ -747,7 +763,7 @@ def _body(chk: Check, tier: str, small: bool = False, items: Optional[List[Dict[
     if items is None:
         items = export_all(chk, tier, small)
     replay_exported(chk, items)
-    random_traces(chk, ntraces=150 if small else (600 if tier == "quick" else 6000))
+    random_traces(chk, ntraces=150 if small else (400 if tier == "quick" else 6000))
 
 
 def run(tier: str) -> int:
@@ -759,7 +775,7 @@ def run(tier: str) -> int:
     chk.cov["rule"] = (
         "TLC enumerates every chain of the catalogues of MC_X06 (depth 1: 14 static kinds x 6 get_template_name "
         "tables x 5 get_template tables; depth 2: every static kind x few methods, few static kinds x every method "
-        "table, same-dir and split-dir plans; thorough: all x all, depth 3) and every history of H renders/clears "
+        "table (quick: pairwise per method), same-dir and split-dir plans; thorough: all x all, depth 3, H=4) and every history of H renders/clears "
         "over cache-relevant chains for template_cache_size 0/1/2; every behaviour is replayed on real classes "
         "(real module files, override_settings) under a rotating cache-size / cached-loader configuration and a "
         "seeded choice of render route and spellings; the printed tag must be in the exported admitted set. "
